@@ -106,6 +106,9 @@ fn cmd_nav(req: &Value) -> Value {
                     let key = match ty {
                         DefinitionType::Symbol(nx) => format!("sym:{}", nx.index()),
                         DefinitionType::Filename(p) => format!("file:{}", p.to_string_lossy()),
+                        // symbols of unassembled code (not in the symbol table)
+                        #[allow(unreachable_patterns)]
+                        other => format!("una:{:?}", other),
                     };
                     keys.push(key.clone());
                     defs.entry(key).or_insert_with(|| {
